@@ -28,6 +28,9 @@ def menu():
     m["p_order"] = {"Type": "Pass", "InputPath": "$.a", "Parameters": {"w.$": "$.b"}, "ResultPath": "$.res", "OutputPath": "$.res"}
     m["p_ctx"] = {"Type": "Pass", "Parameters": {"n.$": "$$.State.Name", "in.$": "$$.Execution.Input"}}
     m["p_resultroot"] = {"Type": "Pass", "Result": [1, 2]}
+    m["p_in_rp"] = {"Type": "Pass", "InputPath": "$.a", "ResultPath": "$.r"}
+    m["p_in_rpnull"] = {"Type": "Pass", "InputPath": "$.a", "ResultPath": None}
+    m["t_in_rp"] = {"Type": "Task", "Resource": fa("f"), "InputPath": "$.a", "ResultPath": "$.r"}
     m["p_emptyparams"] = {"Type": "Pass", "Parameters": {}, "ResultPath": "$.p"}
     m["t_emptysel"] = {"Type": "Task", "Resource": fa("f"), "Parameters": {}, "ResultSelector": {}, "ResultPath": "$.r"}
     m["t_plain"] = {"Type": "Task", "Resource": fa("f")}
@@ -219,6 +222,9 @@ def judge(names, ii, o, g, rec):
             alt = RA.run(d, None, RA.ScriptedTasks(workers_for(o)), context={"Execution": {"Input": None, "Name": "e"}}, exec_timeout=300, nullread=True)
             if agree(g, alt):
                 return ("null-input-read-as-empty-object", "engine %r; reference %r" % (g[:3], want.key()))
+            alt = RA.run(d, None, RA.ScriptedTasks(workers_for(o)), context={"Execution": {"Input": None, "Name": "e"}}, exec_timeout=300, nullread=True, inband=True)
+            if agree(g, alt):
+                return ("null-input-read-as-empty-object", "(together with the in-band Error convention) engine %r; reference %r" % (g[:3], want.key()))
         except RA.Unjudged:
             pass
     return ("mismatch", "engine %r; reference %r" % (g[:3], want.key()))
